@@ -7,6 +7,12 @@ CLAIMS = {
          "text": "UTF-8 codec lemmas proved for all scalar values (widths agree, bytes well-formed, ref(encode(c)) == c); further string operations are bounded shape-enumerated checks against a code-point model (see evidence).",
          "note": "Trusted: CBMC 6.11, accessor prelude. Scheme-side string procedures (string-copy!, string-fill!, (chibi string), SRFI 130) not covered."},
 }
+CLAIMS["C09"] = {"category": "proof", "technique": TECH + "; loop-free full-domain equivalence of each 128-bit emulation helper with native __int128",
+  "text": "Numeric-build-variant clause only: with SEXP_USE_CUSTOM_LONG_LONGS=1 every struct helper of bignum.h (add, add_uint, sub, negate, shl/shr, lt/eq/and, fits/is_fixnum predicates, conversions, mul_uint, lsint_mul_sint, luint_div early exits) equals the native 128-bit operation on the same bits for all inputs (proved, no bound). Every 128-bit use in bignum.c/vm.c goes through these helpers.",
+  "note": "luint_mul_uint is proved against the base-2^32 schoolbook expansion (identity with a*b assumed, cvc5 back end); lsint_mul_sint against luint_mul_uint's contract (uninterpreted function); luint_div's loop (q = floor(a/b)) is undecided and listed. Simplifier half of C09 is not covered (program-meaning statement)."}
+CLAIMS["C19"] = {"category": "proof", "technique": TECH + "; generated C of bytevector.stub regenerated with tools/chibi-ffi each run",
+  "text": "C parts of the codec property: mini-float (f8/f16) encode/decode round trips and totality over their whole finite domains; every numeric bytevector accessor generated from lib/scheme/bytevector.stub reads/writes exactly [k,k+W) inside the bytevector or raises, for any fixnum index, set!-then-ref returns the value, nothing else is written (proved per accessor; bytevector length enumerated).",
+  "note": "Boxing constructors and exception constructors are contract stubs. Not covered: base64, quoted-printable, URI, CSV, json.scm (Scheme); JSON C reader and UTF-16/32 transcoders not yet under contract (see evidence not_covered)."}
 NOT_APPLICABLE = {
  "C03": "compiler-correctness statement over all programs; needs formal semantics of source and bytecode and a simulation proof over an unbounded AST heap - no per-function contract expresses it (local pieces are claimed under C01/C05)",
  "C07": "hygiene is invariance under renaming of whole programs; resolution spans eval.c and 250 lines of init-7.scm (Scheme); no single-call contract expresses it",
